@@ -11,6 +11,8 @@ import (
 	"strings"
 	"sync"
 	"time"
+
+	"github.com/jech/galene/verifhook"
 )
 
 var ErrTagMismatch = errors.New("tag mismatch")
@@ -297,11 +299,13 @@ func (state *state) add(token *Stateful) (*Stateful, error) {
 	}
 	defer f.Close()
 
+	verifhook.At("token.add.opened", state.filename)
 	encoder := json.NewEncoder(f)
 	err = encoder.Encode(token)
 	if err != nil {
 		return nil, err
 	}
+	verifhook.At("token.add.written", state.filename)
 
 	if state.tokens == nil {
 		state.tokens = make(map[string]*Stateful)
@@ -338,6 +342,7 @@ func (state *state) rewrite() error {
 	if err != nil {
 		return err
 	}
+	verifhook.At("token.rewrite.created", tmpfile.Name())
 	a, _, err := state.list("", true)
 	if err != nil {
 		os.Remove(tmpfile.Name())
@@ -351,6 +356,7 @@ func (state *state) rewrite() error {
 			os.Remove(tmpfile.Name())
 			return err
 		}
+		verifhook.At("token.rewrite.encoded", tmpfile.Name())
 	}
 
 	err = tmpfile.Close()
@@ -358,12 +364,14 @@ func (state *state) rewrite() error {
 		os.Remove(tmpfile.Name())
 		return err
 	}
+	verifhook.At("token.rewrite.closed", tmpfile.Name())
 
 	err = os.Rename(tmpfile.Name(), state.filename)
 	if err != nil {
 		os.Remove(tmpfile.Name())
 		return err
 	}
+	verifhook.At("token.rewrite.renamed", state.filename)
 
 	fi, err := os.Stat(state.filename)
 	if err == nil {
